@@ -207,6 +207,19 @@ def fresh_value_scenarios():
         out.append(("fn mk() { map {%s} } let a = mk(); insert(a, 1000, 1); let b = mk(); push(__o, len(a)); push(__o, len(b)); push(__o, len(mk()));" % pairs, [str(n + 1), str(n), str(n)]))
     out.append(("fn mk() { [\"a\", \"b\", 'c', 1.5, true, byte(1), 3, 3, 3, 3, 3, 3, 3, 3, 3, 3, 3, 3, 3, 3, 3, 3, 3, 3, 3, 3, 3, 3, 3, 3, 3, 3, 3, 3] } let a = mk(); a[0] = \"z\"; push(__o, mk()[0]); push(__o, a[0]);", ["\"a\"", "\"z\""]))
     out.append(("let s = \"ab\"; let t = s + \"\"; let u = \"\" + s; push(__o, t == s); push(__o, u); push(__o, s * 1);", ["true", "\"ab\"", "\"ab\""]))
+    # names bound inside a top-level block stay what they are for a function made there, whatever is defined after the block
+    for nb in (1, 2, 4):
+        for nl in (1, 3, 8):
+            for wrap in ("{ %s }", "if true { %s }", "let once = true; while once { once = false; %s }", "{ { %s } }"):
+                for writes in (False, True):
+                    inner = " ".join("let b%d = %d;" % (i, 100 + i) for i in range(nb))
+                    body = ("b0 = b0 + 1; " if writes else "") + " + ".join("b%d" % i for i in range(nb))
+                    inner += " keep = fn() { %s };" % body
+                    later = " ".join("let n%d = %d;" % (i, 7000 + i) for i in range(nl))
+                    text = "let keep = null; " + (wrap % inner) + " " + later + " push(__o, keep()); " + " ".join("push(__o, n%d);" % i for i in range(nl)) + " push(__o, keep());"
+                    tot = sum(100 + i for i in range(nb))
+                    exp = [str(tot + (1 if writes else 0))] + [str(7000 + i) for i in range(nl)] + [str(tot + (2 if writes else 0))]
+                    out.append((text, exp))
     CP = "fn cp(x) { let c = []; let i = 0; while i < len(x) { push(c, x[i]); i = i + 1; } c } "
     return [(CP + t, e) for t, e in out]
 
